@@ -155,6 +155,11 @@ func main() {
 								calls = append(calls, cn)
 							}
 						}
+						// guard clauses of mutators without a result (MarkExecuted, UnMarkExecuted, push, remove, …):
+						// an early `return` decides which part of the bookkeeping is skipped
+						if r, ok := n.(*ast.ReturnStmt); ok && x.Type.Results == nil && len(r.Results) == 0 {
+							calls = append(calls, "return")
+						}
 						if g, ok := n.(*ast.GoStmt); ok {
 							cn := callName(g.Call, imps)
 							if relevant[cn] {
